@@ -333,6 +333,58 @@ fn apply(st: &mut State, step: &Step, counts: &mut Vec<&'static str>) -> Result<
                 unsafe { *v.data.add(len - 1) = 99 };
                 vcheck!(m.as_slice_mut()[len - 1] == 99, "layout.slice", "CSliceMut", "write by the C party not visible");
             }
+            // tuples: fields in declaration order (struct CTup2 { a; b; }), mixed alignments
+            {
+                use cglue::tuple::{CTup2, CTup3, CTup4};
+                #[repr(C)]
+                #[derive(Clone, Copy)]
+                struct T2 { a: u8, b: u64 }
+                #[repr(C)]
+                #[derive(Clone, Copy)]
+                struct T3 { a: u32, b: u8, c: u64 }
+                #[repr(C)]
+                #[derive(Clone, Copy)]
+                struct T4 { a: u8, b: u16, c: u32, d: u64 }
+                let t2: CTup2<u8, u64> = (7u8, x).into();
+                let v: T2 = unsafe { std::ptr::read(&t2 as *const _ as *const T2) };
+                vcheck!(cview::same_size::<CTup2<u8, u64>, T2>() && v.a == 7 && v.b == x, "layout.tuple", "CTup2", "CTup2 seen from C as ({}, {:#x})", v.a, v.b);
+                let made: CTup2<u8, u64> = unsafe { cview::view(T2 { a: 9, b: x ^ 1 }) };
+                vcheck!(made.into_tuple() == (9u8, x ^ 1), "layout.tuple", "CTup2", "C-made CTup2 not read back");
+                let t3: CTup3<u32, u8, u64> = (e as u32, 3u8, x).into();
+                let v: T3 = unsafe { std::ptr::read(&t3 as *const _ as *const T3) };
+                vcheck!(cview::same_size::<CTup3<u32, u8, u64>, T3>() && v.a == e as u32 && v.b == 3 && v.c == x, "layout.tuple", "CTup3", "CTup3 field order differs from the C declaration");
+                let t4: CTup4<u8, u16, u32, u64> = (1u8, 2u16, e as u32, x).into();
+                let v: T4 = unsafe { std::ptr::read(&t4 as *const _ as *const T4) };
+                vcheck!(cview::same_size::<CTup4<u8, u16, u32, u64>, T4>() && v.a == 1 && v.b == 2 && v.c == e as u32 && v.d == x, "layout.tuple", "CTup4", "CTup4 field order differs from the C declaration");
+                let back: (u8, u16, u32, u64) = t4.into();
+                vcheck!(back == (1, 2, e as u32, x), "layout.tuple", "CTup4", "CTup4 -> tuple changed a field");
+            }
+            // option / result with payloads of other sizes and alignments (tag first, payload at its alignment)
+            {
+                let o8: COption<u8> = Some(0xAB).into();
+                let v: OptionView<u8> = unsafe { std::ptr::read(&o8 as *const _ as *const OptionView<u8>) };
+                vcheck!(cview::same_size::<COption<u8>, OptionView<u8>>() && v.tag == 1 && v.some == 0xAB, "layout.option", "COption<u8>", "COption<u8> seen from C as tag={} payload={:#x}", v.tag, v.some);
+                let r: CResult<u8, u64> = Err(x).into();
+                let v: ResultView<u8, u64> = unsafe { std::ptr::read(&r as *const _ as *const ResultView<u8, u64>) };
+                vcheck!(cview::same_size::<CResult<u8, u64>, ResultView<u8, u64>>() && v.tag == 1 && unsafe { v.payload.err } == x, "layout.result", "CResult<u8,u64>", "Err payload misplaced");
+                let r: CResult<u8, u64> = Ok(0x5C).into();
+                let v: ResultView<u8, u64> = unsafe { std::ptr::read(&r as *const _ as *const ResultView<u8, u64>) };
+                vcheck!(v.tag == 0 && unsafe { v.payload.ok } == 0x5C, "layout.result", "CResult<u8,u64>", "Ok payload misplaced");
+                vcheck!(r.is_ok() && !r.is_err(), "layout.result", "CResult", "is_ok/is_err disagree with the variant");
+            }
+            // strings: {data,len} of the bytes; str conversions refuse exactly invalid UTF-8
+            {
+                use std::convert::TryFrom;
+                let text = ["", "a", "héllo", "日本"][step.arg(1).rem_euclid(4) as usize];
+                let r = CSliceRef::from(text);
+                let v: SliceView<u8> = unsafe { std::ptr::read(&r as *const _ as *const SliceView<u8>) };
+                vcheck!(v.len == text.len() && v.data as *const u8 == text.as_ptr(), "layout.slice", "CSliceRef<u8> from str", "str seen from C as len={} (bytes {})", v.len, text.len());
+                let back = <&str>::try_from(r);
+                vcheck!(back.ok() == Some(text), "layout.slice", "str round trip", "str did not round-trip through CSliceRef");
+                let bad: [u8; 3] = [b'a', 0xFF, b'b'];
+                let r = CSliceRef::from(&bad[..]);
+                vcheck!(<&str>::try_from(r).is_err(), "layout.slice", "utf8", "invalid UTF-8 was accepted as &str");
+            }
             Ok("Tags".into())
         }
         _ => Ok(format!("unknown-op {}", step.op)),
